@@ -99,18 +99,18 @@ operands are literals (`known`). -/
 def Inverts (f : Bi) (known : List (Option Val)) (v : Val) (parts : List Val) : Prop :=
   match f with
   | .plus =>
-    -- N+K: `v = a + d` with the literal `a` on either side and `d ≥ 0`
+    -- N+K: `v = a + d` with the literal `a` on either side and `d ≥ 0` (exact numbers: ints, rationals)
     (∃ a d x, known = [some a, none] ∧ parts = [a, d] ∧ construct .plus [a, d] = .ok x ∧ veq x v = true ∧
-        isRatVal d = (isRatVal v || isRatVal a) ∧ (∃ q, exactNum d = some q ∧ q ≥ 0))
+        isRatVal d = (isRatVal v || isRatVal a) ∧ (∃ q, exactNum d = some q ∧ q ≥ 0) ∧ (∃ qv, exactNum v = some qv))
     ∨ (∃ a d x, known = [none, some a] ∧ parts = [d, a] ∧ construct .plus [d, a] = .ok x ∧ veq x v = true ∧
-        isRatVal d = (isRatVal v || isRatVal a) ∧ (∃ q, exactNum d = some q ∧ q ≥ 0))
+        isRatVal d = (isRatVal v || isRatVal a) ∧ (∃ q, exactNum d = some q ∧ q ≥ 0) ∧ (∃ qv, exactNum v = some qv))
   | .minus => ∃ x, known.length = 1 ∧ parts = [x] ∧ negVal v = .ok x
   | .times =>
     -- `v = a * k` with the literal `a ≠ 0` on either side and `k` a whole number
     (∃ a k x, known = [some a, none] ∧ parts = [a, k] ∧ construct .times [a, k] = .ok x ∧ veq x v = true ∧
-        isRatVal k = (isRatVal v || isRatVal a) ∧ isNonzero a = true ∧ (∃ q, exactNum k = some q ∧ q.den = 1))
+        isRatVal k = (isRatVal v || isRatVal a) ∧ isNonzero a = true ∧ (∃ q, exactNum k = some q ∧ q.den = 1) ∧ (∃ qv, exactNum v = some qv))
     ∨ (∃ a k x, known = [none, some a] ∧ parts = [k, a] ∧ construct .times [k, a] = .ok x ∧ veq x v = true ∧
-        isRatVal k = (isRatVal v || isRatVal a) ∧ isNonzero a = true ∧ (∃ q, exactNum k = some q ∧ q.den = 1))
+        isRatVal k = (isRatVal v || isRatVal a) ∧ isNonzero a = true ∧ (∃ q, exactNum k = some q ∧ q.den = 1) ∧ (∃ qv, exactNum v = some qv))
   | .divide =>
     -- numerator and denominator in lowest terms, denominator positive
     ∃ n d q, exactNum v = some q ∧ parts = [.int n, .int d] ∧ d > 0 ∧ q = mkRat n d.toNat ∧ Nat.Coprime n.natAbs d.toNat
